@@ -122,7 +122,7 @@ def constants(cfg: Cfg, dev: str, seed: int, level: str | None = None) -> dict:
     )
 
 
-def run_tlc(cfg: Cfg, *, dev: str = "{}", seed: int = 0, invs=None, workers=4):
+def run_tlc(cfg: Cfg, *, dev: str = "{}", seed: int = 0, invs=None, workers=3):
     if invs is None:
         invs = list(IDEAL_INVS) + (["CovCauchySchwarz"] if cfg.cauchy else [])
     text = tlc.make_cfg(
@@ -133,7 +133,7 @@ def run_tlc(cfg: Cfg, *, dev: str = "{}", seed: int = 0, invs=None, workers=4):
                    workers=workers)
 
 
-def run_many(jobs, fn, threads: int = 5):
+def run_many(jobs, fn, threads: int = 8):
     with ThreadPoolExecutor(max_workers=threads) as ex:
         return list(ex.map(fn, jobs))
 
@@ -145,25 +145,35 @@ X_AUTO = (("x", True, ("dd",)),)
 def ideal_configs(quick: bool) -> list[Cfg]:
     c: list[Cfg] = []
     # --- single arrays: every array of the domain (any sparsity) ---------
-    c.append(Cfg("counts 3 patches x 1 bin, cells 0..2 (all 19683 arrays)", "counts", 3, 1, cvals=(0, 1, 2), funcs=X_CROSS, cauchy=True))
-    c.append(Cfg("counts 2 patches x 2 bins, cells 0..1, histories of 2", "counts", 2, 2, cvals=(0, 1), funcs=X_CROSS, maxops=2, cauchy=True, liveness=True))
-    c.append(Cfg("counts 4 patches x 2 bins, cells 0..3, 150 pseudo-random arrays, histories of 2", "counts", 4, 2, cvals=(0, 1, 2, 3),
-                 funcs=X_AUTO, nsample=150, maxops=2))
+    if quick:
+        c.append(Cfg("counts 3 patches x 1 bin, cells 0..1 (all 512 arrays), histories of 2", "counts", 3, 1, cvals=(0, 1), funcs=X_CROSS, maxops=2,
+                     cauchy=True, liveness=True))
+        c.append(Cfg("counts 2 patches x 2 bins, cells 0..2 (all 6561 arrays)", "counts", 2, 2, cvals=(0, 1, 2), funcs=X_AUTO, cauchy=True))
+    else:
+        c.append(Cfg("counts 3 patches x 1 bin, cells 0..2 (all 19683 arrays)", "counts", 3, 1, cvals=(0, 1, 2), funcs=X_CROSS, cauchy=True))
+        c.append(Cfg("counts 3 patches x 1 bin, cells 0..1, histories of 3", "counts", 3, 1, cvals=(0, 1), funcs=X_CROSS, maxops=3, cauchy=True, liveness=True))
+        c.append(Cfg("counts 2 patches x 2 bins, cells 0..2, histories of 2", "counts", 2, 2, cvals=(0, 1, 2), funcs=X_AUTO, maxops=2, cauchy=True))
+        c.append(Cfg("counts 4 patches x 1 bin, cells 0..1 (all 65536 arrays)", "counts", 4, 1, cvals=(0, 1), funcs=X_CROSS))
+        c.append(Cfg("counts 2 patches x 3 bins, cells 0..1, histories of 2", "counts", 2, 3, cvals=(0, 1), funcs=X_AUTO, maxops=2))
+    c.append(Cfg("counts 4 patches x 2 bins, cells 0..3, pseudo-random arrays, histories of 2", "counts", 4, 2, cvals=(0, 1, 2, 3),
+                 funcs=X_AUTO, nsample=100 if quick else 1000, maxops=2))
     c.append(Cfg("sum-of-weights products auto, 3 patches x 2 bins, weights 0..2", "sumw", 3, 2, wvals=(0, 1, 2), funcs=X_AUTO, cauchy=True))
     c.append(Cfg("sum-of-weights products cross, 3 patches x 1 bin, weights 0..2", "sumw", 3, 1, wvals=(0, 1, 2), funcs=X_CROSS, cauchy=True))
     c.append(Cfg("sum-of-weights products auto, 4 patches x 1 bin, weights 0..3, histories of 2", "sumw", 4, 1, wvals=(0, 1, 2, 3), funcs=X_AUTO, maxops=2))
-    c.append(Cfg("normalised counts cross, 2 patches x 1 bin, cells 0..2, weights 0..2", "norm", 2, 1, cvals=(0, 1, 2), wvals=(0, 1, 2),
-                 funcs=X_CROSS, maxops=1 if quick else 2))
-    c.append(Cfg("normalised counts auto, 3 patches x 1 bin, cells 0..1, weights 1..2", "norm", 3, 1, cvals=(0, 1), wvals=(1, 2),
-                 funcs=X_AUTO, maxops=1, liveness=True))
-    if not quick:
-        c.append(Cfg("counts 4 patches x 1 bin, cells 0..1 (all 65536 arrays)", "counts", 4, 1, cvals=(0, 1), funcs=X_CROSS))
-        c.append(Cfg("counts 2 patches x 3 bins, cells 0..1", "counts", 2, 3, cvals=(0, 1), funcs=X_AUTO, maxops=2))
-        c.append(Cfg("sum-of-weights products cross, 2 patches x 2 bins, weights 0..2", "sumw", 2, 2, wvals=(0, 1, 2), funcs=X_CROSS, maxops=2))
+    if quick:
+        c.append(Cfg("normalised counts cross, 2 patches x 1 bin, cells 0..2, weights 0..1", "norm", 2, 1, cvals=(0, 1, 2), wvals=(0, 1), funcs=X_CROSS, maxops=1))
+        c.append(Cfg("normalised counts auto, 3 patches x 1 bin, cells 0..1, weights 1..2", "norm", 3, 1, cvals=(0, 1), wvals=(1, 2),
+                     funcs=X_AUTO, maxops=1))
+    else:
+        c.append(Cfg("normalised counts cross, 2 patches x 1 bin, cells 0..2, weights 0..2, histories of 2", "norm", 2, 1, cvals=(0, 1, 2), wvals=(0, 1, 2),
+                     funcs=X_CROSS, maxops=2))
+        c.append(Cfg("normalised counts auto, 3 patches x 1 bin, cells 0..1, weights 0..2", "norm", 3, 1, cvals=(0, 1), wvals=(0, 1, 2),
+                     funcs=X_AUTO, maxops=1, liveness=True))
+        c.append(Cfg("sum-of-weights products cross, 2 patches x 2 bins, weights 0..2, histories of 2", "sumw", 2, 2, wvals=(0, 1, 2), funcs=X_CROSS, maxops=2))
         c.append(Cfg("normalised counts cross, 3 patches x 2 bins, 400 pseudo-random, histories of 3", "norm", 3, 2, cvals=(0, 1, 2, 3),
                      wvals=(0, 1, 2), funcs=X_CROSS, nsample=400, maxops=3))
     # --- correlation functions: every member combination the estimators define ---
-    n = 60 if quick else 400
+    n = 40 if quick else 400
     ops = 2 if quick else 3
     member_sets = [
         ("cross", False, ("dd", "dr")), ("cross", False, ("dd", "rd")), ("cross", False, ("dd", "dr", "rd")),
@@ -180,6 +190,7 @@ def ideal_configs(quick: bool) -> list[Cfg]:
         ((("cross", False, ("dd", "dr")),), 2, 3, (2, 1, 3)),
         ((("cross", False, ("dd", "rd")), ("ref", True, ("dd", "dr")), ("unk", True, ("dd", "dr", "rr"))), 3, 2, (3, 1)),
     ]
+    n = 25 if quick else 300
     for funcs, NP, NB, dz in nz_sets:
         c.append(Cfg(f"RedshiftData {'+'.join(f for f, _, _ in funcs)}, {NP} patches x {NB} bins dz={dz}, {n} pseudo-random, histories of 2",
                      "nz", NP, NB, cvals=(0, 1, 2), wvals=(1, 2), funcs=funcs, dz=dz, nsample=n, maxops=2))
@@ -422,22 +433,28 @@ def check_result(kind: str, res, exp: dict, *, cls: str, hcls: str, NP: int, NB:
     undefined = any(e is None for row in exp_s for e in row)
     data_ok = all(e is None or close(float(g), e) for g, e in zip(got_d, exp_d))
     recomputed = None
-    if (undefined or not data_ok) and recompute is not None:
-        recomputed = np.array([recompute(k) for k in range(NP)], dtype=np.float64)
-        detail.update(recomputed_without_patch_k=recomputed.tolist())
-    if data_ok:
-        outcome = classify_samples(got_s, exp_s, recomputed)
-    else:
-        # the statistic itself is not the model's (estimator/bin rule = other properties): only the
-        # literal predicate "sample k = the library's statistic without patch k" decides
-        drifts.append((f"C03|{entry}|statistic_differs_from_model", dict(detail)))
-        if recomputed is None:
+
+    def literal():
+        nonlocal recomputed
+        if recomputed is None and recompute is not None:
+            recomputed = np.array([recompute(k) for k in range(NP)], dtype=np.float64)
+            detail.update(recomputed_without_patch_k=recomputed.tolist())
+        return recomputed
+
+    # 1. the model's exact expectation (undefined entries: the library's own statistic without patch k)
+    outcome = classify_samples(got_s, exp_s, literal() if undefined else None)
+    if outcome is not None or not data_ok:
+        # 2. disagreement with the model: the property's literal predicate decides between a violation
+        #    and a model/code difference in the STATISTIC itself (estimator, normalisation, bin rule:
+        #    other properties), which is drift
+        rec = literal()
+        none = [[None] * NB for _ in range(NP)]
+        lit = None if rec is None else classify_samples(got_s, none, rec)
+        if rec is not None and lit is None:
+            drifts.append((f"C03|{entry}|{cls}|statistic_differs_from_model", dict(detail)))
             outcome = None
-        else:
-            none = [[None] * NB for _ in range(NP)]
-            outcome = classify_samples(got_s, none, recomputed)
-            if outcome is not None:
-                outcome = outcome + "_vs_recomputation"
+        elif outcome is None:
+            outcome = (lit or "samples_wrong") + "_vs_recomputation"
     if outcome is not None:
         findings.append((f"{base}|{outcome}", detail))
     exp_cov = None
@@ -465,7 +482,7 @@ def func_class(funcs, op) -> str:
 
 
 def history_class(hist, n: int) -> str:
-    return "first_call" if n == 0 else "after_" + "_".join(dict.fromkeys(h[0] for h in hist[:n]))
+    return "any_call" if n == 0 else "after_" + "_".join(dict.fromkeys(h[0] for h in hist[:n]))
 
 
 class ContainerReplayer:
@@ -478,6 +495,7 @@ class ContainerReplayer:
         """Execute the history of one TLC behaviour on real objects.  Returns all
         findings (also reported through ctx when ``report``)."""
         cnt, wt, _hst, hist, results = beh
+        self.last_drifts = []
         cnt = cnt if isinstance(cnt, dict) else {}
         wt = wt if isinstance(wt, dict) else {}
         all_findings = []
@@ -523,6 +541,16 @@ class ContainerReplayer:
                     continue
                 findings, drifts = check_result(kind, res, exp, cls=cls, hcls=hcls, NP=cfg.NP, NB=cfg.NB,
                                                 recompute=recompute_for(op), detail=detail)
+                if findings:
+                    # does the failure need the history?  run the operation on fresh containers
+                    fresh = Workspace(self.yaw, cfg.funcs, cfg.dz, cnt, wt, self.tmpdir)
+                    try:
+                        f2, _ = check_result(kind, fresh.execute(op), exp, cls=cls, hcls="any_call", NP=cfg.NP, NB=cfg.NB,
+                                             recompute=recompute_for(op), detail=detail)
+                    except Exception:
+                        f2 = []
+                    if n == 0 or {k for k, _ in f2} == {k.replace(f"|{hcls}|", "|any_call|") for k, _ in findings}:
+                        findings = [(k.replace(f"|{hcls}|", "|any_call|"), d) for k, d in findings]
                 # sampling must not change the containers (FrameUnchanged); reported with the
                 # wrong samples it causes later, here only as supporting detail / drift
                 after = ws.stored_state()
@@ -530,6 +558,7 @@ class ContainerReplayer:
                 if changed:
                     drifts.append((f"C03|{ENTRY[kind]}|{cls}|containers_modified_by_sampling", dict(detail, modified=changed)))
                 all_findings += findings
+                self.last_drifts += drifts
                 if report:
                     for key, det in findings:
                         self.ctx.violation(key, det)
@@ -554,6 +583,7 @@ class HistWorld:
         self.root = root
         self.rng = random.Random(seed)
         self.cache: dict = {}
+        self.rcache: dict = {}
         self.n = 0
 
     def frame(self, hst, NB, dz):
@@ -600,6 +630,12 @@ class HistWorld:
 
     def recompute(self, hst, NB, dz, k: int):
         """HistData.from_catalog on the catalog re-created without patch k."""
+        key = (hst, NB, tuple(dz[:NB]), k)
+        if key not in self.rcache:
+            self.rcache[key] = self._recompute(hst, NB, dz, k)
+        return self.rcache[key]
+
+    def _recompute(self, hst, NB, dz, k: int):
         _, config, df = self.catalog(hst, NB, dz)
         red = df[df["pid"] != k].copy()
         red.loc[red["pid"] > k, "pid"] -= 1
@@ -610,6 +646,7 @@ class HistWorld:
     def replay(self, cfg: Cfg, beh, *, report: bool = True) -> list:
         _c, _w, hst, hist, results = beh
         all_findings = []
+        self.last_drifts = []
         for op, exp in zip(hist, results):
             W, arrived = exp["sched"]
             arrived = tuple(arrived)
@@ -621,12 +658,13 @@ class HistWorld:
                 self.ctx.validated(1)
             if outcome[0] != "ok":
                 name = type(outcome[1]).__name__ if outcome[0] == "raised" else "deadlock"
-                f = [(f"C03|{ENTRY['hist']}|{cls}|first_call|raises_{name}", dict(detail, error=repr(outcome[1])))]
+                f = [(f"C03|{ENTRY['hist']}|{cls}|any_call|raises_{name}", dict(detail, error=repr(outcome[1])))]
                 findings, drifts = f, []
             else:
-                findings, drifts = check_result("hist", outcome[1], exp, cls=cls, hcls="first_call", NP=cfg.NP, NB=cfg.NB,
+                findings, drifts = check_result("hist", outcome[1], exp, cls=cls, hcls="any_call", NP=cfg.NP, NB=cfg.NB,
                                                 recompute=lambda k: self.recompute(hst, cfg.NB, cfg.dz, k), detail=detail)
             all_findings += findings
+            self.last_drifts += drifts
             if report:
                 for key, det in findings:
                     self.ctx.violation(key, det)
@@ -725,14 +763,26 @@ class EndToEnd:
                 ctx.violation(f"{base}|{outcome}_vs_patch_physically_removed", det)
             for key, d2 in check_covariance(prod, entry_of[name], cls_of[name]):
                 ctx.violation(key, dict(d2, **detail))
+        # joint covariance of several products (cov_from_samples with a sequence of sample sets)
+        if "ref" in products:
+            from yaw.correlation.corrdata import cov_from_samples
+
+            sets = [np.asarray(products["cross"].samples), np.asarray(products["ref"].samples)]
+            if all(np.all(np.isfinite(x)) for x in sets):
+                joint = np.asarray(cov_from_samples(sets))
+                want = jackknife_cov(np.concatenate(sets, axis=1))
+                ctx.evaluated(1)
+                if joint.shape != want.shape or not np.allclose(joint, want, rtol=1e-9, atol=1e-12 * max(1.0, float(np.abs(want).max()))):
+                    ctx.violation("C03|cov_from_samples|joint_of_two_products|not_delete_one_jackknife_covariance",
+                                  dict(detail, covariance=joint.tolist(), expected=want.tolist()))
         # ---- record for TLC (JackknifeTrace) ---------------------------------
         funcs = [("cross", False, tuple(full["cross"].to_dict()))]
         if "ref" in full:
             funcs.append(("ref", True, tuple(full["ref"].to_dict())))
-        rec = dict(cnt={}, wt={}, sps={}, red={})
+        rec = dict(cnt={}, wt={}, sps={}, red={}, full={})
         ok = True
         for f, auto, members in funcs:
-            rec["cnt"][f], rec["wt"][f], rec["sps"][f], rec["red"][f] = {}, {}, {}, {}
+            rec["cnt"][f], rec["wt"][f], rec["sps"][f], rec["red"][f], rec["full"][f] = {}, {}, {}, {}, {}
             for m in members:
                 nc = getattr(full[f], m)
                 c2, okc = _ints(2 * nc.counts.counts)
@@ -747,6 +797,7 @@ class EndToEnd:
                 d2, o3 = _ints(2 * sw.data)
                 s2, o4 = _ints(2 * sw.samples)
                 rec["sps"][f][m] = dict(counts=dict(data=d1, samples=s1), sumw=dict(data=d2, samples=s2))
+                rec["full"][f][m] = dict(cnt=d1, norm=d2)
                 rc, rn = [], []
                 for k in range(NP):
                     rnc = getattr(red_objs[k][f], m)
@@ -893,9 +944,45 @@ def py_expected(cfg: Cfg, cnt, wt, hst, op) -> dict:
 # ---------------------------------------------------------------------------
 
 
+def replay_case(ctx, yaw, path: str) -> None:
+    """./check C03 --replay <file>: re-execute the recorded failing case on the current tree."""
+    doc = json.loads(open(path).read())
+    det = doc["detail"]
+    with scratch("c03r_") as root:
+        if "hst" in det:
+            hst = tuple(tuple(r) for r in det["hst"])
+            cfg = Cfg("replay", "hist", len(hst), len(hst[0]), dz=tuple(det["dz"]) + (1, 1, 1))
+            op = ("hist", "-", "-")
+            exp = py_expected(cfg, {}, {}, hst, op)
+            exp["sched"] = (det["W"], tuple(det["completion_order"]))
+            HistWorld(ctx, yaw, root / "hist", doc.get("seed", 0)).replay(cfg, ({}, {}, hst, (op,), [exp]))
+        elif "cnt" in det:
+            def arr(x):
+                return tuple(arr(v) for v in x) if isinstance(x, list) else x
+            cnt = {tuple(k.split(".")): arr(v) for k, v in det["cnt"].items()}
+            wt = {tuple(k.split(".")): arr(v) for k, v in det["wt"].items()}
+            hist = tuple(tuple(h) for h in det["history"])
+            names = list(dict.fromkeys(f for f, _ in cnt))
+            funcs = tuple((f, any(k == (f, "d") for k in wt), tuple(m for m in MEMBER_ORDER if (f, m) in cnt)) for f in names)
+            any_c = next(iter(cnt.values()))
+            cfg = Cfg("replay", hist[-1][0], len(any_c[0]), len(any_c), funcs=funcs, dz=tuple(det["dz"]) + (1, 1, 1))
+            exps = [py_expected(cfg, cnt, wt, (), op) if op[0] != "io" else dict(data=(), samples=(), cov=None, sched=None) for op in hist]
+            ContainerReplayer(ctx, yaw, root).replay(cfg, (cnt, wt, (), hist, exps))
+        elif "variant" in det:
+            names = set(det["variant"].split("+"))
+            variant = {k: (k in names) for k in ("ref_rand", "unk_rand", "auto", "count_rr")}
+            EndToEnd(ctx, yaw, root / "e2e", doc.get("seed", 0)).scenario(det["num_patches"], det["objects"], tuple(det["edges"]), variant, det["seed"])
+        else:
+            ctx.require(False, f"unknown replay file layout: {path}")
+    ctx.extra["replayed"] = path
+
+
 def run(ctx) -> None:
     quick = ctx.quick
     yaw = data.import_yaw()
+    if ctx.replay:
+        replay_case(ctx, yaw, ctx.replay)
+        return
     rng = random.Random(ctx.seed)
     ctx.rule = (
         "every terminal state of the TLC runs (data set x operation history [x pool schedule]) is replayed on real "
@@ -939,8 +1026,9 @@ def run(ctx) -> None:
         # ---- C. spec -> code: replay every terminal state ----------------
         first_beh = {}
         undefined_cases = 0
+        parsed = {}
         for cfg, res in zip(cfgs, results):
-            behs = res.printed("beh")
+            behs = parsed[cfg.label] = res.printed("beh")
             ctx.require(len(behs) > 0, f"no behaviour printed by TLC for {cfg.label}")
             first_beh.setdefault(cfg.level, (cfg, behs[len(behs) // 2]))
             if cfg.level == "hist":
@@ -978,45 +1066,52 @@ def run(ctx) -> None:
             else:
                 found = creplay.replay(dcfg, beh)
             ctx.validated(1)
+            kind = hist[n][0]
+            dev_s = [[decode(kind, v) for v in row] for row in res_dev[n]["samples"]]
+            as_model = any("got_samples" in det and rows_match(np.array(det["got_samples"]), dev_s) for _, det in found)
             dev_report[name] = dict(tlc_counterexample=dict(hist=[list(h) for h in hist], hst=hst or None,
                                                             cnt={f"{k[0]}.{k[1]}": v for k, v in cnt.items()} or None),
-                                    present_in_real_code=bool(found), keys=sorted({k for k, _ in found}))
+                                    real_code_violates_property_on_counterexample=bool(found),
+                                    real_code_behaves_like_deviant_model=as_model, keys=sorted({k for k, _ in found}))
         ctx.extra["deviation_replays"] = dev_report
 
         # ---- E. binding demonstrations: a corrupted case must be rejected ---
+        # (on a behaviour for which the real code conforms; if the library is defective on every
+        # candidate nothing can be demonstrated at that level - recorded, not a machinery error)
         demos = {}
         for level in ("counts", "corr", "nz", "hist"):
-            cfg, beh = first_beh[level]
-            # pick a behaviour with a defined, non-constant sample column
-            cand = None
-            src = [r for c, r in zip(cfgs, results) if c is cfg][0].printed("beh")
-            for b in src:
-                last = b[4][-1]
+            cfg, _ = first_beh[level]
+            replayer = hworld if level == "hist" else creplay
+            tried = 0
+            demos[level] = dict(demonstrable=False)
+            for cand in parsed[cfg.label]:
+                last = dict(cand[4][-1])
                 if not last["data"]:
                     continue
                 col = [row[0] for row in last["samples"]]
-                if all(v[1] != 0 for v in col) and len(set(col)) > 1 and col != col[::-1]:
-                    cand = b
+                if not all(v[1] != 0 for v in col) or len(set(col)) < 2:
+                    continue
+                tried += 1
+                if tried > 40:
                     break
-            ctx.require(cand is not None, f"no behaviour suitable for the binding demonstration at level {level}")
-            replayer = hworld if level == "hist" else creplay
-            good = replayer.replay(cfg, cand, report=False)
-            # corruption 1: swap the rows of two patches in the expectation; 2: change one number
-            last = dict(cand[4][-1])
-            rows = list(last["samples"])
-            i, j = [(a, b) for a in range(len(rows)) for b in range(len(rows)) if rows[a][0] != rows[b][0]][0]
-            rows[i], rows[j] = rows[j], rows[i]
-            bad1 = (cand[0], cand[1], cand[2], cand[3], list(cand[4][:-1]) + [dict(last, samples=tuple(rows))])
-            rows2 = [list(r) for r in last["samples"]]
-            nn, dd = rows2[0][0]
-            rows2[0][0] = (nn + dd, dd)
-            bad2 = (cand[0], cand[1], cand[2], cand[3], list(cand[4][:-1]) + [dict(last, samples=tuple(tuple(r) for r in rows2), cov=())])
-            r1 = replayer.replay(cfg, bad1, report=False)
-            r2 = replayer.replay(cfg, bad2, report=False)
-            base = {k for k, _ in good}  # (non-empty only for known defects: the verdict must still respond to the corruption)
-            demos[level] = dict(swapped_rows_rejected={k for k, _ in r1} != base, changed_number_rejected={k for k, _ in r2} != base)
-            ctx.require(demos[level]["swapped_rows_rejected"] and demos[level]["changed_number_rejected"],
-                        f"binding demonstration failed at level {level}: a corrupted expectation was accepted")
+                if replayer.replay(cfg, cand, report=False) or replayer.last_drifts:
+                    continue  # the real code is wrong / differs from the model here (reported anyway)
+                # corruption 1: swap the rows of two patches in the expectation; 2: change one number
+                rows = list(last["samples"])
+                i, j = [(x, y) for x in range(len(rows)) for y in range(len(rows)) if rows[x][0] != rows[y][0]][0]
+                rows[i], rows[j] = rows[j], rows[i]
+                bad1 = (cand[0], cand[1], cand[2], cand[3], list(cand[4][:-1]) + [dict(last, samples=tuple(rows))])
+                rows2 = [list(r) for r in last["samples"]]
+                nn, dd = rows2[0][0]
+                rows2[0][0] = (nn + dd, dd)
+                bad2 = (cand[0], cand[1], cand[2], cand[3], list(cand[4][:-1]) + [dict(last, samples=tuple(tuple(r) for r in rows2), cov=())])
+                # a corrupted expectation must not pass silently: the real (conforming) samples then disagree
+                # with the model and are reported (as drift, because the literal predicate still holds)
+                r1 = bool(replayer.replay(cfg, bad1, report=False)) or bool(replayer.last_drifts)
+                r2 = bool(replayer.replay(cfg, bad2, report=False)) or bool(replayer.last_drifts)
+                demos[level] = dict(demonstrable=True, swapped_rows_rejected=r1, changed_number_rejected=r2)
+                ctx.require(r1 and r2, f"binding demonstration failed at level {level}: a corrupted expectation was accepted")
+                break
         ctx.extra["binding_demonstrations"] = demos
 
         # ---- F. end-to-end + trace validation ------------------------------
@@ -1050,12 +1145,16 @@ def run(ctx) -> None:
             bad["red"][f0][m0]["cnt"][1][0] += 2
             verdicts = validate_traces(ctx, ts + [dict(ts[0], record=bad)], f"JackknifeTrace {gkey[1]} patches x {gkey[2]} bins, {len(ts)} measured")
             ctx.require(verdicts[-1][0] is False and verdicts[-1][1] is False, "binding demonstration failed: corrupted trace accepted by JackknifeTrace")
-            for t, (impl, prop, spec) in zip(ts, verdicts[:-1]):
+            for t, (impl, prop, spec, full) in zip(ts, verdicts[:-1]):
                 ctx.validated(1)
                 nval += 1
                 ctx.require(spec is True, "JackknifeIsLeaveOneOut false on measured data (model inconsistent)")
+                if full is not True:
+                    # the totals (sum of the cells / normalisation) are not the model's: another property's business
+                    ctx.drift("C03|sample_patch_sum|measured_pair_counts|end_to_end|totals_differ_from_model", t["detail"])
+                    continue
                 if impl is not True:
-                    ctx.violation("C03|sample_patch_sum|measured_pair_counts|end_to_end|differs_from_model_program", t["detail"])
+                    ctx.violation("C03|sample_patch_sum|measured_pair_counts|end_to_end|samples_differ_from_model_program", t["detail"])
                 if prop is not True:
                     ctx.violation("C03|pair_counts|measured_pair_counts|end_to_end|leave_one_out_sum_differs_from_patch_physically_removed", t["detail"])
         ctx.extra["end_to_end"] = dict(scenarios=len(plan), traces_validated_by_tlc=nval, corrupted_traces_rejected=len(groups))
